@@ -227,14 +227,8 @@ theorem complementMin_eq (pick : List Nat → Nat) :
 
 end complementMin
 
-/-- `complement(minify=True)` as the code composes it (mirrors `Driver/DfaOps.lean
-dfaComplement`): complete first iff `allow_partial`, then `_minify` on the reachable part
-with flipped final states. -/
-def _root_.AV.DFA.complementMinFull (d : DFA σ α) (trap : σ) (pick : List Nat → Nat) :
-    Res (DFA (MinName σ) α) :=
-  match (if d.allowPartial then d.toComplete trap false else .ok d) with
-  | .ok C => .ok (C.complementMin pick)
-  | .error e => .error e
+-- `DFA.complementMinFull` (`complement(minify=True)` as the code composes it) is defined in
+-- Model/DFAComplement.lean: the driver command DFA_COMPLEMENT executes that very definition.
 
 /-! ### `to_partial(minify=True)` -/
 
